@@ -85,3 +85,15 @@ def closes_through(loops, sid):
     if sid == 'SE':
         return len(loops) <= 2
     return True
+
+
+def stack_after_trailer(old, sid):
+    """a trailer of kind K closes the innermost open K header and everything inside it -
+    nothing more; when no K header is open every open header is closed"""
+    if sid == 'IEA':
+        return []
+    if sid == 'GE':
+        return old[:1] if len(old) >= 2 else []
+    if sid == 'SE':
+        return old[:2] if len(old) >= 3 else []
+    return old
